@@ -278,6 +278,16 @@ class Checker:
                     f = getattr(ta, name)
                     a, b = np.asarray(f(c, p, st, True), dtype=float), np.asarray(f(c2, p, st, True), dtype=float)
                     self.close(name, f'homogeneity(x{lam})', b, lam * a, 1e-9 * lam * S)
+            # the same relation when the caller rescales its candle buffer IN PLACE between the calls (same array object,
+            # same length, same timestamps: what a feed does to a forming candle, or a caller that re-uses one buffer)
+            buf = c.copy()
+            for name in ('sma', 'ema', 'wma', 'trima'):
+                f = getattr(ta, name)
+                a = np.asarray(f(buf, p, st, True), dtype=float).copy()
+                buf[:, 1:5] *= 7.0
+                b = np.asarray(f(buf, p, st, True), dtype=float)
+                self.close(name, 'homogeneity(x7.0,buffer-rescaled-in-place)', b, 7.0 * a, 1e-9 * 7.0 * S)
+                buf[:, 1:5] = c[:, 1:5]
         return self.vios
 
     def _avg_ok(self, d, p, spread):
